@@ -130,8 +130,11 @@ class InlineTranslator:
             new_elements.append(elem.update(terms=new_terms, condition=transformed + rest_cond))
         return new_elements
 
-    def inline_body_aggregate(self, rule: AST, atom: AST, unique_vars: UniqueVariables) -> AST:
-        """inline rule into this body aggregate atom"""
+    def inline_body_aggregate(
+        self, rule: AST, atom: AST, unique_vars: UniqueVariables, global_vars: Iterable[AST] = ()
+    ) -> AST:
+        """inline rule into this body aggregate atom
+        global_vars are the variables that are global in the statement of the atom"""
         # pylint: disable=too-many-branches
         hatom = rule.head.atom
         hpred = Predicate(hatom.symbol.name, len(hatom.symbol.arguments))
@@ -204,6 +207,17 @@ class InlineTranslator:
                 != replace_cond.atom.symbol.arguments[hv_pos]  # pylint: disable=undefined-loop-variable
             ):
                 return atom
+            # an argument that is local to the element and not part of its tuple would merge different sums
+            kept_vars = set(global_vars)
+            for term in replace_elem.terms[1:]:
+                kept_vars.update(collect_ast(term, "Variable"))
+            for pos, arg in enumerate(replace_cond.atom.symbol.arguments):
+                if (
+                    atom.function not in (AggregateFunction.Min, AggregateFunction.Max)
+                    and pos != hv_pos  # pylint: disable=undefined-loop-variable
+                    and not kept_vars.issuperset(collect_ast(arg, "Variable"))
+                ):
+                    return atom
             # replace headrule body aggregate with inlined version of the conditions
             new_elements = self.compute_new_body_elements(rule, replace_cond, replace_elem, agg, atom, unique_vars)
             return atom.update(function=result_function, elements=rest_elems + new_elements)
@@ -467,9 +481,12 @@ class InlineTranslator:
         if orig.ast_type != ASTType.Rule:
             return orig
         new_body: list[AST] = []
+        global_vars = global_vars_inside_body(orig.body)
         for blit in orig.body:
             if blit.ast_type == ASTType.Literal and blit.atom.ast_type == ASTType.BodyAggregate:
-                new_body.append(blit.update(atom=self.inline_body_aggregate(stm, blit.atom, unique_vars)))
+                new_body.append(
+                    blit.update(atom=self.inline_body_aggregate(stm, blit.atom, unique_vars, global_vars))
+                )
             else:
                 new_body.append(blit)
         return orig.update(body=new_body)
